@@ -148,6 +148,15 @@ def drive(ctx, strategy, body, max_examples, salt=0, shrink=None, max_roots=4, s
                 raise
             except Inconclusive:
                 ctx.inconclusive += 1
+            except Exception as e:
+                # an exception that escaped from inside jedi while a check was asking it something is a crash of the
+                # code under test: C01's subject.  It is counted here and the case is abandoned; anything else is a
+                # harness error and propagates.
+                tb = traceback.extract_tb(e.__traceback__)
+                if getattr(ctx, "own_crashes", False) or not tb or "/jedi/" not in tb[-1].filename.replace("\\", "/") \
+                        and not any("/jedi/" in f.filename and "/verif/" not in f.filename for f in tb[-3:]):
+                    raise
+                ctx.classes["not-judged:jedi-internal-exception(C01):" + type(e).__name__] += 1
 
         st = settings(max_examples=remaining, deadline=None, database=None, derandomize=False,
                       report_multiple_bugs=False, suppress_health_check=list(HealthCheck),
